@@ -891,7 +891,7 @@ pub fn object_get_own_property_names(
                     PropertyKey::Symbol(_) => false,
                     PropertyKey::Index(i) => (*i as usize) >= covered,
                     PropertyKey::String(s) => {
-                        !matches!(s.as_str(), "__super__" | "__super_target__" | "__ns_exports__")
+                        !matches!(s.as_str(), "__super__" | "__super_target__" | "__ns_exports__" | "__private_methods__")
                             && !(exotic_length.is_some() && s.as_str() == "length")
                     }
                 })
@@ -1365,7 +1365,7 @@ pub fn object_get_own_property_descriptors(
             .into_iter()
             .filter(|key| {
                 !matches!(key, PropertyKey::String(s)
-                    if matches!(s.as_str(), "__super__" | "__super_target__" | "__ns_exports__"))
+                    if matches!(s.as_str(), "__super__" | "__super_target__" | "__ns_exports__" | "__private_methods__"))
             })
             .collect()
     };
